@@ -25,7 +25,8 @@ CFG = {'module': 'Dnp3.Props.C03',
               'update_result',
               'existed',
               'nopoint',
-              'event_iff_beyond_deadband_of_last_reported'],
+              'event_iff_beyond_deadband_of_last_reported',
+              'class_poll_returns_oldest_matching'],
  'rule': 'engine db: operation sequences straight on the real Database over all eight point types (add with '
          'configured static / event variation and dead-band / update with every UpdateOptions / select by '
          "every READ header form the library's ReadHeader::from_* tables accept / write_response_headers at "
